@@ -262,6 +262,51 @@ theorem callee_env_all (g : GEnv) (d : Option Expr) (locals : Scope) (f : SFrame
       some (⟨st.heap.length, false⟩ :: f :: rest, { st with heap := st.heap ++ [⟨[], false⟩] }) := by
   simp [callData, alldata_of_shape locals f rest hl hf, push]
 
+/-- a scope with an entered frame somewhere (every scope of a running template: `enter` marks the param /
+    data frame and pushes, blocks and loop iterations push unmarked frames on top) -/
+def Shaped (ctx : Scope) : Prop := ∃ locals f rest, ctx = locals ++ f :: rest ∧ (∀ x ∈ locals, x.entered = false) ∧ f.entered = true
+
+theorem shaped_iff_alldata (ctx : Scope) : Shaped ctx ↔ ∃ sc, alldata ctx = some sc := by
+  constructor
+  · rintro ⟨l, f, r, rfl, hl, hf⟩; exact ⟨_, alldata_of_shape l f r hl hf⟩
+  · rintro ⟨sc, h⟩
+    obtain ⟨pre, f, r, h1, _, h3, h4⟩ := alldata_spec ctx sc h
+    exact ⟨pre, f, r, h1, h4, h3⟩
+
+/-- blocks, loop iterations and message bodies push an unmarked frame: the shape is kept -/
+theorem shaped_push (ctx : Scope) (st : St) (h : Shaped ctx) : Shaped (push ctx st).1 := by
+  obtain ⟨l, f, r, rfl, hl, hf⟩ := h
+  refine ⟨⟨st.heap.length, false⟩ :: l, f, r, rfl, ?_, hf⟩
+  intro x hx
+  rcases List.mem_cons.mp hx with rfl | hx
+  · rfl
+  · exact hl x hx
+
+/-- entering a template establishes the shape, whatever the scope was -/
+theorem shaped_enter (f : SFrame) (r : Scope) (st : St) (cctx : Scope) (s2 : St)
+    (h : enter (f :: r) st = some (cctx, s2)) : Shaped cctx := by
+  simp only [enter, push, Option.some.injEq, Prod.mk.injEq] at h
+  rw [← h.1]
+  exact ⟨[⟨st.heap.length, false⟩], { f with entered := true }, r, rfl, by simp, rfl⟩
+
+/-- data="all" WITHOUT a shape hypothesis: whenever the call's data scope exists at all, the caller's scope
+    splits into unmarked frames above an entered frame, and the callee's param scope is a fresh frame on
+    top of exactly the frames from the entered one down.  (On a `Shaped` scope it always exists:
+    `callee_env_all`; that every scope the walk reaches is `Shaped` follows from `shaped_enter` and
+    `shaped_push` — each sub-run is started on the current scope or on `push` of it, each callee on the
+    result of `enter` — but is not threaded through the mutual induction as a theorem.) -/
+theorem callee_env_all_of_success (g : GEnv) (d : Option Expr) (ctx cd : Scope) (st st1 : St)
+    (h : callData g true d ctx st = some (cd, st1)) :
+    ∃ locals f rest, ctx = locals ++ f :: rest ∧ (∀ x ∈ locals, x.entered = false) ∧ f.entered = true ∧
+      cd = ⟨st.heap.length, false⟩ :: f :: rest := by
+  simp only [callData, if_true] at h
+  split at h
+  · simp at h
+  · rename_i sc hsc
+    obtain ⟨pre, f, r, h1, h2, h3, h4⟩ := alldata_spec ctx sc hsc
+    simp only [push, Option.some.injEq, Prod.mk.injEq] at h
+    exact ⟨pre, f, r, h1, h4, h3, by rw [← h.1, h2]⟩
+
 /-- no data attribute: one fresh empty map, nothing of the caller -/
 theorem callee_env_none (g : GEnv) (ctx : Scope) (st : St) :
     callData g false none ctx st = some ([⟨st.heap.length, false⟩], { st with heap := st.heap ++ [⟨[], false⟩] }) := by
